@@ -18,6 +18,7 @@ const (
 	mZero   // freshly allocated object/backing store: every cell of base a0 holds the zero value
 	mHavoc  // every cell of base a0 holds an unknown value (fresh UF)
 	mFill   // cells [off, off+n) of base a0 hold val
+	mFrame  // cells of base a0 still hold what the list `src` holds for them (frame around a wholesale havoc)
 	mHavocR // cells [off, off+n) of base a0 hold unknown values (fresh UF)
 	// mAppend: result slice (a0=resBase, a1=resOff) of append(old, src...): when `fits` the n new cells were
 	// written in place behind old (oldBase,oldOff,oldLen); otherwise resBase is fresh storage holding old's
@@ -61,6 +62,7 @@ type memCtx struct {
 	nextID   int
 	memo     map[string]*smt.Term
 	reads    int
+	baseLike map[int]bool // symbolic terms known to be object identities
 	deadline time.Time
 }
 
@@ -79,6 +81,11 @@ func isFreshBase(t *smt.Term) (int, bool) {
 func (m *memCtx) distinctIDs(x, y *smt.Term) bool {
 	if x.Sort.Width != 64 {
 		return false
+	}
+	isGlobal := func(t *smt.Term) bool { return t.IsConst() && t.Val >= globalStart && t.Val < rodataStart }
+	isSym := func(t *smt.Term) bool { return t.Op == smt.OVar || t.Op == smt.OApp }
+	if isGlobal(x) && isSym(y) && m.baseLike[y.ID] || isGlobal(y) && isSym(x) && m.baseLike[x.ID] {
+		return true
 	}
 	if k, ok := isFreshBase(x); ok {
 		if s, ok := m.headStamp(y); ok && s < k {
@@ -279,6 +286,15 @@ func (m *memCtx) readC(n *MemNode, a0, a1 *smt.Term, ctx []*smt.Term) *smt.Term 
 		default:
 			cond := c.And(c.Eq(a0, n.a0), c.UleNW(n.a1, a1), c.UltNW(a1, c.Add(n.a1, n.n)))
 			r = c.Ite(cond, inner(), m.readC(n.prev, a0, a1, ctx))
+		}
+	case mFrame:
+		switch m.eqStatus(a0, n.a0) {
+		case triNo:
+			r = m.readC(n.prev, a0, a1, ctx)
+		case triYes:
+			r = m.readC(n.src, a0, a1, ctx)
+		default:
+			r = c.Ite(c.Eq(a0, n.a0), m.readC(n.src, a0, a1, ctx), m.readC(n.prev, a0, a1, ctx))
 		}
 	case mAppend:
 		r = m.readAppend(n, a0, a1, ctx)
